@@ -48,16 +48,26 @@ fn judge_cli(form: u8, flag: u8, uses_stack: bool) -> Obs {
     };
     let dir = TempDir::new();
     dir.write("p.asm", text.as_bytes());
-    let flag_args: Vec<&str> = match flag % 5 {
+    // 0-4: the documented spellings; 5-9: feature lists with empty words or a repeated word (the
+    // list is comma-separated); 10: an empty list
+    let flag = flag % 11;
+    let flag_args: Vec<&str> = match flag {
         0 => vec![],
         1 | 4 => vec!["-f", "stack"],
         2 => vec!["--features", "stack"],
-        _ => vec!["--features=stack"],
+        3 => vec!["--features=stack"],
+        5 => vec!["-f", ",stack"],
+        6 => vec!["-f", "stack,"],
+        7 => vec!["--features=,,stack"],
+        8 => vec!["-f", "stack,stack"],
+        9 => vec!["--features", "stack,,"],
+        _ => vec!["-f", ""],
     };
-    let with_flag = flag % 5 != 0;
+    let with_flag = flag != 0 && flag != 10;
+    let odd_list = flag >= 5;
     let build = |head: &[&str], file: &str, tail: &[&str]| -> Vec<String> {
         let mut a: Vec<String> = head.iter().map(|s| s.to_string()).collect();
-        if flag % 5 == 4 {
+        if flag == 4 {
             a.extend(flag_args.iter().map(|s| s.to_string()));
             a.push(file.to_string());
         } else {
@@ -84,20 +94,26 @@ fn judge_cli(form: u8, flag: u8, uses_stack: bool) -> Obs {
             }
         }
     };
-    obs.show = Some(format!("{what} with flag spelling #{} on a program that {} the extension", flag % 5, if uses_stack { "uses" } else { "does not use" }));
+    obs.show = Some(format!("{what} with flag spelling #{} {:?} on a program that {} the extension", flag, flag_args, if uses_stack { "uses" } else { "does not use" }));
     if run.timed_out {
         obs.excluded = Some("watchdog");
         return obs;
     }
     let out = String::from_utf8_lossy(&run.stdout).to_string();
     let err = String::from_utf8_lossy(&run.stderr).to_string();
+    if odd_list {
+        obs.label("feature-list-with-empty-or-repeated-words");
+    }
     if run.panicked() {
         obs.set_fail("C18:cli-crashes", format!("{what}: {}", run.brief()));
+    } else if odd_list && run.code == Some(2) && err.contains("error:") {
+        // the command line was refused as a usage error: nothing was accepted, nothing ignored
+        obs.label("feature-list-refused-as-usage-error");
     } else if !uses_stack || with_flag {
         if !run.ok() || !out.contains("OK") {
             obs.set_fail(
                 if uses_stack { "C18:cli-flag-not-honoured" } else { "C18:cli-plain-program-affected" },
-                format!("{what} (flag spelling #{}): expected the program to print OK and exit 0\n{}", flag % 5, run.brief()),
+                format!("{what} (flag spelling #{flag} {flag_args:?}): expected the program to print OK and exit 0\n{}", run.brief()),
             );
         }
     } else if run.ok() || !(err.to_lowercase().contains("stack") || out.to_lowercase().contains("stack")) {
@@ -442,7 +458,7 @@ impl Prop for C18 {
         // the command line's ways of reaching the feature state (real binary, enumerated)
         let mut k = 0u64;
         for form in 0..4u8 {
-            for flag in 0..5u8 {
+            for flag in 0..11u8 {
                 for uses_stack in [false, true] {
                     k += 1;
                     if ctx.mine(k) {
@@ -451,7 +467,7 @@ impl Prop for C18 {
                 }
             }
         }
-        rep.exhaustive.push("real binary: {run, sub-command-less, debug, compile + run of the object file} x {no flag, -f stack, --features stack, --features=stack, flag before the file} x {program with, without stack instructions}".into());
+        rep.exhaustive.push("real binary: {run, sub-command-less, debug, compile + run of the object file} x {no flag, -f stack, --features stack, --features=stack, flag before the file, the lists `,stack` `stack,` `,,stack` `stack,stack` `stack,,` and the empty list (each either refused as a usage error or meaning what its non-empty words mean)} x {program with, without stack instructions}".into());
         let n = ctx.share(ctx.tier.pick(20_000, 200_000));
         drive(ctx, rep, "configs", cases(), n, &mut |c: &Case| judge_case(c));
     }
